@@ -14,8 +14,10 @@ ASSUMPTIONS = ["HugeRealloc zero-fills the new half (mremap / calloc contract)",
                "model transcribes util/probing_hash_table.hh by hand"]
 
 
-def fmt(ops):
-    return ",".join(f"i:{k}:{v}" if t == "i" else f"f:{k}" for (t, k, v) in ops)
+def fmt(ops, model=False):
+    """i = FindOrInsert, f = Find, n = Insert() of a key that is not there yet, the value written through the returned iterator (for the
+    model and the finite map that is an insert-if-absent of an absent key)"""
+    return ",".join(f"{'i' if (t == 'i' or model) else 'n'}:{k}:{v}" if t in ("i", "n") else f"f:{k}" for (t, k, v) in ops)
 
 
 def prefixes(rng, n):
@@ -49,9 +51,9 @@ def wrap_cases(rng):
     around to the end of the run and which STAYS in the lower half; fillers in the middle up to the growth threshold; one more
     insert forces the doubling.  (Reaching N buckets first takes the earlier doublings, which the fillers' order randomises.)"""
     out = []
-    for N in (32, 64, 128):
+    for N in (32, 64, 128, 256):
         T = (3 * N) // 4
-        for r in (1, 8, 15, 16, 17, 20):
+        for r in (1, 8, 15, 16, 17, 20, 63, 64, 65, 70):
             for t in (1, 2, 3):
                 if r + t + 1 >= T:
                     continue
@@ -82,6 +84,29 @@ def run(ctx):
             hist.append(p + list(s) + [("f", k, 0) for k in universe] + [("f", k, 0) for k in pre] + [("i", k, 7777) for k in pre[::5]])
     for keys in wrap_cases(rng):
         hist.append([("i", k, i + 1) for i, k in enumerate(keys)] + [("f", k, 0) for k in keys] + [("i", k, 7777) for k in keys[::4]])
+    # AutoProbing::Insert (no lookup first) with the value written through the iterator it returns, across every doubling up to 512
+    # buckets.  Insert grows one insertion earlier than FindOrInsert, so these histories are judged by their answers (finite map)
+    # only, not by growth points.
+    hist_n = []
+    for cnt in (5, 6, 7, 12, 13, 24, 25, 48, 49, 96, 97, 200, 400):
+        ks = rng.sample(range(1, 100000), cnt)
+        hist_n.append([("n", k, 5000 + i) for i, k in enumerate(ks)] + [("f", k, 0) for k in ks])
+        ks2 = [1 + 8 * j for j in range(cnt)]                         # keys that all collide modulo the small table sizes
+        hist_n.append([("n", k, 9000 + i) for i, k in enumerate(ks2)] + [("f", k, 0) for k in ks2])
+    nops = ["table.run " + fmt(h) for h in hist_n]
+    na = pvlib.run_lines(ctx.impl(), nops, env=pvlib.san_env(), timeout=600, stall=30)
+    nspec = pvlib.run_lines(pvlib.PVDRIVER, ["table.spec.run " + fmt(h, model=True) for h in hist_n])
+    ctx.count("table.run.insert", len(nops), nops)
+    for o, x, sp_ in zip(nops, na, nspec):
+        w = x.split()
+        got = "ok " + " ".join(t.split("|")[0] for t in w[1:]) if w and w[0] == "ok" else x
+        if got != sp_:
+            gl, sl = got.split(), sp_.split()
+            k = next((i for i, (p_, q_) in enumerate(zip(gl, sl)) if p_ != q_), min(len(gl), len(sl)))
+            pvlib.report_violation(ctx, "table-insert:" + o[:120], {"ops": [o[:4000]], "impl_answers": got[:600], "finite_map": sp_[:600], "first_difference_at_op": k},
+                                   summary=f"Insert() + value through the returned iterator, {o[10:70]}...: op {k} answers {gl[k] if k < len(gl) else x[:40]} "
+                                           f"but a finite map answers {sl[k] if k < len(sl) else None}")
+            break
     # exhaustive short insert sequences from the empty table
     for n in range(1, 4 if ctx.tier == "quick" else 5):
         for t in itertools.product(universe[:8], repeat=n):
